@@ -368,8 +368,14 @@ def run(ctx: Any, prog: Program) -> None:
     # ---- L9 --------------------------------------------------------------------------------------------------
     rb, wb = ms['_lmp_read_bmodels'], ms['_lmp_write_bmodels']
     wsent = [c for c in walk_no_nested(wb) if isinstance(c, ast.Call) and dotted(c.func) == 'struct.pack' and len(c.args) == 5 and isinstance(c.args[1], ast.UnaryOp)]
-    ok = len(wsent) == 1 and ast.unparse(wsent[0].args[1]) == '-1' and isinstance(wsent[0].args[0], ast.Constant) and wsent[0].args[0].value == '<iiii'
-    ctx.check('C11.L9', ok, bsp, wsent[0] if wsent else wb, 'the physics lump must end with a (-1, 0, 0, 0) header record', func='BSP._lmp_write_bmodels', text='sentinel written')
+    # the terminator: a header-format record packed from constants only
+    consts = [c for c in walk_no_nested(wb) if isinstance(c, ast.Call) and dotted(c.func) == 'struct.pack' and len(c.args) == 5 and isinstance(c.args[0], ast.Constant) and c.args[0].value == '<iiii'
+              and all(isinstance(a, ast.Constant) or (isinstance(a, ast.UnaryOp) and isinstance(a.operand, ast.Constant)) for a in c.args[1:])]
+    if len(consts) != 1:
+        ctx.shape('C11.L9', False, bsp, wb, 'constant terminator record not found', func='BSP._lmp_write_bmodels', text='sentinel written')
+    else:
+        first = ast.literal_eval(consts[0].args[1])
+        ctx.check('C11.L9', first == -1, bsp, consts[0], f'the physics lump ends with a header record whose model index is {first}; the reader stops on -1 only', func='BSP._lmp_write_bmodels', text='sentinel written')
     rt = [n for n in walk_no_nested(rb) if isinstance(n, ast.If) and ast.unparse(n.test) == 'mdl_ind == -1' and any(isinstance(x, ast.Break) for x in n.body)]
     first_field_ok = any(isinstance(n, ast.Assign) and isinstance(n.targets[0], ast.Tuple) and ast.unparse(n.targets[0].elts[0]) == 'mdl_ind' and 'struct_read' in ast.unparse(n.value) for n in walk_no_nested(rb))
     ctx.shape('C11.L9', bool(rt) and first_field_ok, bsp, rt[0] if rt else rb, 'the reader must stop on a header whose first field is -1', func='BSP._lmp_read_bmodels', text='sentinel consumed')
